@@ -340,7 +340,7 @@ class Ctx:
             path = self._write_replay(body)
             lines.append(f"VIOLATION property={self.prop} replay={path} no-failing-input-found")
             exit_code = 1
-        for l in printed:
+        for l in dict.fromkeys(printed):  # one line per finding, whatever the number of sites it shows at
             print(l)
         for l in lines:
             print(l)
